@@ -919,7 +919,7 @@ fn gen(a: &Args) {
             else if let Some(r) = l.strip_prefix("api ") { apis.push((r.to_string(), "replay")); }
         }
     } else {
-        let (nl, nt, na) = if a.thorough() { (40_000, 12_000, 20_000) } else { (2_400, 900, 1_500) };
+        let (nl, nt, na) = if a.thorough() { (30_000, 8_000, 20_000) } else { (2_400, 900, 1_500) };
         lexes = lex_inputs(&mut rng, nl);
         lits = literal_inputs(&mut rng, nt);
         apis = deep_cases(a.thorough());
